@@ -142,9 +142,49 @@ def overrun(w, desc):
     return False
 
 
-def check_wire(ctx, M, dec, w, origin):
+ORDER = {1: [7, 0x21, 0x12, 0x1e, 0x0a, 0x0c, 0x22, 0x24, 0x2c, 0x2e], 2: [7, 0x14, 0x15, 0x16, 0x17]}
+
+
+def canonical_order(op, v):
+    els = TG.tlv_walk(v)
+    if els is None:
+        return False
+    idx = [ORDER[op].index(t) for t, _ in els if t in ORDER[op]]
+    return all(a < b for a, b in zip(idx, idx[1:]))
+
+
+def check_pointers(ctx, M, dec, w, raw, case):
+    """The signature / digest pointers that parse_interest / parse_data extract are fields too: on a strictly
+    well-formed packet whose recognised elements are in declared order they must be the specified portions."""
     try:
-        r = ('ok', dec.conv(dec.fn(w)))
+        _, a = TG.read_num(w, 0)
+        _, b = TG.read_num(w, a)
+    except Exception:   # noqa
+        return
+    v = w[a + b:]
+    if not canonical_order(dec.op, v):
+        return
+    ptrs = raw[3]
+    if ptrs.signature_info is not None and ptrs.signature_value_buf is not None:
+        spec = M([31 if dec.op == 1 else 30, v])
+        spec = spec[0] if spec else None
+        rep = b''.join(bytes(x) for x in ptrs.signature_covered_part)
+        if spec is not None and rep != spec:
+            ctx.violation(dec.name, 'covered-part-mismatch',
+                          'SignaturePtrs.signature_covered_part differs from the specified signed portion of the packet', case)
+    if dec.op == 1 and ptrs.digest_value_buf is not None:
+        dp, dc = M([32, v]), M([33, v])
+        if dp and dc:
+            if b''.join(bytes(x) for x in ptrs.digest_covered_part) != dp[0] or bytes(ptrs.digest_value_buf) != dc[0]:
+                ctx.violation(dec.name, 'digest-pointers-mismatch',
+                              'digest_covered_part / digest_value_buf differ from the strict reading', case)
+
+
+def check_wire(ctx, M, dec, w, origin):
+    raw = None
+    try:
+        raw = dec.fn(w)
+        r = ('ok', dec.conv(raw))
     except Exception as e:   # noqa
         r = ('err', type(e).__name__, documented(e))
     m = M([dec.op, w])
@@ -183,6 +223,8 @@ def check_wire(ctx, M, dec, w, origin):
                 ctx.violation(dec.name, 'rejects-well-formed', f'strictly well-formed packet rejected with {r[1]}', case)
             elif sv != r[1]:
                 ctx.violation(dec.name, 'field-mismatch', 'extracted fields differ from the strict reading', case)
+            elif dec.op in (1, 2) and raw is not None:
+                check_pointers(ctx, M, dec, w, raw, case)
     ctx.case((dec.op, w), len(w) >= 4, case if r[0] == 'ok' else None, f'{dec.name}.{origin}.{r[0]}')
 
 
@@ -248,6 +290,11 @@ def valid_packets(ctx):
         sg = rng.choice(signers)
         if sg is not None and not isinstance(sg, DigestSha256Signer):
             pass
+        if rng.random() < 0.3:
+            k = rng.randint(0, len(name))
+            name = name[:k] + [G.tlv(2, bytes(32))] + name[k:]
+            if app is None and sg is None:
+                app = b'q'
         try:
             out.append((0, bytes(make_interest(name, ip, app, sg))))
         except Exception:   # noqa  (e.g. a ParametersSha256 component in a random name)
